@@ -57,6 +57,53 @@ fn sx(e: &Expr) -> String {
     }
 }
 
+/// Build an expression from a JSON tree spec (used to observe the printer on marker expressions).
+fn build(v: &serde_json::Value) -> Expr {
+    let k = v["k"].as_str().unwrap_or("");
+    let kids: Vec<Expr> = v["c"].as_array().map(|a| a.iter().map(build).collect()).unwrap_or_default();
+    let name = v["n"].as_str().unwrap_or("zn0").to_string();
+    let mut it = kids.into_iter();
+    let mut nx = || Box::new(it.next().expect("child"));
+    match k {
+        "Value" => {
+            let t = v["v"]["t"].as_str().unwrap_or("None");
+            let p = &v["v"]["v"];
+            Expr::Value(match t {
+                "Int" => Value::Int(p.as_str().unwrap().parse().unwrap()),
+                "Float" => Value::Float(p.as_str().unwrap().parse().unwrap()),
+                "Decimal" => Value::Decimal(p.as_str().unwrap().parse().unwrap()),
+                "String" => Value::String(p.as_str().unwrap().to_string()),
+                "Bool" => Value::Bool(p.as_bool().unwrap()),
+                _ => Value::None,
+            })
+        }
+        "Reference" => Expr::Reference(name),
+        "Symbol" => Expr::Symbol(name),
+        "Function" => Expr::Function(name, nx()),
+        "Index" => {
+            let i = if let Some(f) = v["i"]["f"].as_str() { reval::expr::Index::Map(f.to_string()) } else { reval::expr::Index::Vec(v["i"]["n"].as_u64().unwrap_or(0) as usize) };
+            Expr::Index(nx(), i)
+        }
+        "If" => Expr::If(nx(), nx(), nx()),
+        "Vec" => Expr::Vec(it.collect()),
+        "Map" => Expr::Map(v["m"].as_array().map(|a| a.iter().map(|kv| (kv[0].as_str().unwrap().to_string(), build(&kv[1]))).collect()).unwrap_or_default()),
+        "Not" => Expr::Not(nx()), "Neg" => Expr::Neg(nx()), "Some" => Expr::Some(nx()), "None" => Expr::None(nx()),
+        "Int" => Expr::Int(nx()), "Float" => Expr::Float(nx()), "Dec" => Expr::Dec(nx()), "DateTime" => Expr::DateTime(nx()),
+        "Duration" => Expr::Duration(nx()),
+        "Mult" => Expr::Mult(nx(), nx()), "Div" => Expr::Div(nx(), nx()), "Rem" => Expr::Rem(nx(), nx()), "Add" => Expr::Add(nx(), nx()),
+        "Sub" => Expr::Sub(nx(), nx()), "Equals" => Expr::Equals(nx(), nx()), "NotEquals" => Expr::NotEquals(nx(), nx()),
+        "GreaterThan" => Expr::GreaterThan(nx(), nx()), "GreaterThanEquals" => Expr::GreaterThanEquals(nx(), nx()),
+        "LessThan" => Expr::LessThan(nx(), nx()), "LessThanEquals" => Expr::LessThanEquals(nx(), nx()),
+        "And" => Expr::And(nx(), nx()), "Or" => Expr::Or(nx(), nx()), "BitAnd" => Expr::BitAnd(nx(), nx()), "BitOr" => Expr::BitOr(nx(), nx()),
+        "BitXor" => Expr::BitXor(nx(), nx()), "Contains" => Expr::Contains(nx(), nx()),
+        "UpperCase" => Expr::UpperCase(nx()), "LowerCase" => Expr::LowerCase(nx()), "Trim" => Expr::Trim(nx()), "Floor" => Expr::Floor(nx()),
+        "Round" => Expr::Round(nx()), "Fract" => Expr::Fract(nx()), "Year" => Expr::Year(nx()), "Month" => Expr::Month(nx()),
+        "Week" => Expr::Week(nx()), "Day" => Expr::Day(nx()), "Hour" => Expr::Hour(nx()), "Minute" => Expr::Minute(nx()),
+        "Second" => Expr::Second(nx()),
+        other => panic!("unknown node kind {other}"),
+    }
+}
+
 fn guarded<F: FnOnce() -> String + panic::UnwindSafe>(f: F) -> String {
     match panic::catch_unwind(f) {
         Ok(s) => s,
@@ -83,6 +130,13 @@ fn main() {
     for line in stdin.lock().lines() {
         let line = line.unwrap();
         if line.trim().is_empty() { continue; }
+        if mode == "render-spec" {
+            // input: a JSON tree spec; output: JSON string of its Display rendering
+            let spec: serde_json::Value = serde_json::from_str(&line).unwrap();
+            let res = guarded(move || format!("OK {}", jstr(&build(&spec).to_string())));
+            writeln!(out, "{}", res).unwrap();
+            continue;
+        }
         let text: String = serde_json::from_str(&line).unwrap();
         let res = match mode.as_str() {
             "parse" => guarded(|| match Expr::parse(&text) { Ok(e) => format!("OK {}", sx(&e)), Err(e) => format!("ERR {}", jstr(&e.to_string())) }),
